@@ -397,7 +397,7 @@ def err_name(e):
 def correspondence(ctx):
     from icalendar import Timezone
     # the coarse-to-fine step list is C13's; the rounding and the name loop are part of tz_trans
-    n = ctx.vol(60, 6)
+    n = ctx.vol(150, 6)
     for d in definitions(ctx, n, n, n):
         text = vtimezone_text(d)
         mo = model_obs(d)
@@ -437,7 +437,7 @@ def correspondence(ctx):
     for s in ['', '/', '//', '/a', 'a/', '/a/b/', 'a//b', '///a///', 'Europe/Berlin', '/Europe/Berlin', ' /a/ ']:
         ctx.corr('tz_strip', [enc(s)], enc(tzp.clean_timezone_id(s)), '/' in s)
     for prov in ('zoneinfo', 'pytz'):
-        for hist in histories(ctx, ctx.vol(60, 6)):
+        for hist in histories(ctx, ctx.vol(150, 6)):
             ids, flags = id_table(hist, prov)
             cals = ';'.join(' '.join((f'v{ids.index(i)}.{k}' if kind == 'v' else f'u{ids.index(i)}') for kind, i, k in cal)
                             for cal in hist)
@@ -678,11 +678,11 @@ def check_history(ctx, hist, prov):
 
 def oracle(ctx):
     light = not (ctx.tier == 'thorough' or ctx.escalate)
-    n = 40 if light else 400
+    n = 120 if light else 1200
     for d in definitions(ctx, n, n, n):
         check_definition(ctx, d)
     for prov in ('zoneinfo', 'pytz'):
-        for hist in histories(ctx, 40 if light else 400):
+        for hist in histories(ctx, 100 if light else 1000):
             check_history(ctx, hist, prov)
 
 
